@@ -48,8 +48,14 @@ META['level_note'] = (
 # where: ['none'] (where=None) ['all'] ['kind', o, m, f, c] ['ncands', n] ['name', s] ['hints', z] ['not', w] ['or', a, b]
 CLASSES = [('HA', ['x', 'y']), ('HB', ['p']), ('HC', ['u', 'v', 'w']), ('HD', []),
            # classes with typed fields (placeholders are validated against the field's value spec when they are bound)
-           ('TI', ['i', 's', 'f', 'e']), ('TL', ['l', 'd'])]
-N_UNTYPED = 4
+           ('TI', ['i', 's', 'f', 'e']), ('TL', ['l', 'd']),
+           # classes related by inheritance: HF(HE) has the same fields, HG(HE) adds a defaulted field, HH(HF) is a grandchild.
+           # pg.eq / == distinguish the classes, encode must too (an exact class comparison, not isinstance)
+           ('HE', ['x', 'y']), ('HF', ['x', 'y']), ('HG', ['x', 'y', 'z']), ('HH', ['x', 'y'])]
+TYPED = (4, 5)
+FAMILY = (6, 7, 8, 9)
+PARENT = {7: 6, 8: 6, 9: 7}
+UNTYPED = (0, 1, 2, 3, 6, 7, 8, 9)
 def field_specs(pg):
   T = pg.typing
   return {'TI': dict(i=T.Int(min_value=0, max_value=9), s=T.Str(), f=T.Float(min_value=0.0, max_value=4.0), e=T.Enum(1, [1, 2, 3])),
@@ -64,8 +70,12 @@ def py():
   _PY['pg'] = pg
   cls = []
   specs = field_specs(pg)
-  for name, fields in CLASSES:
-    cls.append(pg.members([(f, specs.get(name, {}).get(f, pg.typing.Any())) for f in fields])(type(name, (pg.Object,), {})))
+  for ci, (name, fields) in enumerate(CLASSES):
+    if ci in PARENT:
+      own = [(f, pg.typing.Any(default=0)) for f in fields if f not in CLASSES[PARENT[ci]][1]]
+      cls.append(pg.members(own)(type(name, (cls[PARENT[ci]],), {})))
+    else:
+      cls.append(pg.members([(f, specs.get(name, {}).get(f, pg.typing.Any())) for f in fields])(type(name, (pg.Object,), {})))
   _PY['classes'] = cls
   class CodePoints(pg.hyper.CustomHyper):
     def custom_decode(self, dna):
@@ -379,10 +389,30 @@ class TGen:
     if x < 0.34: return self.leaf()
     if x < 0.56: return ['D', [[k, self.value(d - 1, p_h)] for k in r.sample(KEYS, r.choice([0, 1, 2, 2, 3]))]]
     if x < 0.78: return ['l', [self.value(d - 1, p_h) for _ in range(r.choice([0, 1, 2, 2, 3]))]]
-    ci = r.randrange(N_UNTYPED)
+    ci = r.choice(UNTYPED)
     return ['O', ci, [[f, self.value(d - 1, p_h)] for f in CLASSES[ci][1]]]
+  def family_cands(self, n, d):
+    """Candidates that are objects of classes related by inheritance, in any order, with equal or different field values,
+    constant or with a nested placeholder."""
+    r = self.r
+    same = r.random() < 0.6
+    nested = d > 1 and self.budget > 0 and r.random() < 0.4
+    def field():
+      if nested:
+        return ['1', [['L', 1], ['L', 2]], None, None]
+      return self.leaf()
+    fx, fy = field(), self.leaf()
+    out = []
+    for ci in (r.sample(FAMILY, min(n, len(FAMILY))) + [r.choice(FAMILY) for _ in range(max(0, n - len(FAMILY)))]):
+      x, y = (json.loads(json.dumps(fx)), fy) if same else (field(), self.leaf())
+      kvs = [['x', x], ['y', y]] + ([['z', r.choice([['L', 0], ['L', 0], self.leaf()])]] if 'z' in CLASSES[ci][1] else [])
+      out.append(['O', ci, kvs])
+    if nested: self.budget -= 1
+    return out
   def cands(self, n, d):
     r = self.r
+    if n >= 2 and r.random() < 0.12:
+      return self.family_cands(n, d)
     out = []
     used = []
     for _ in range(n):
@@ -436,6 +466,16 @@ def sweep_placeholders():
          ('manyof-k1', ['M', 1, [['L', 1], ['L', 2]], True, False, None, 5]),
          ('permutation', ['M', 3, [['L', 'a'], ['L', 'b'], ['L', 'c']], True, False, None, 5]),
          ('float', ['F', 0.0, 1.0, None, 5]), ('custom0', ['X', 0, None, 5]), ('custom1', ['X', 1, None, 5])]
+  obj = lambda ci, x=8, z=0: ['O', ci, [['x', x if isinstance(x, list) else ['L', x]], ['y', ['L', 'k']]] + ([['z', ['L', z]]] if ci == 8 else [])]
+  inner = lambda: ['1', [['L', 1], ['L', 2]], None, None]
+  out += [('oneof-base-derived', ['1', [obj(6), obj(7)], None, 5]), ('oneof-derived-base', ['1', [obj(7), obj(6)], None, 5]),
+          ('oneof-base-derived-extra-field', ['1', [obj(6), obj(8), obj(8, z=1)], None, 5]),
+          ('oneof-family-nested', ['1', [obj(6, inner()), obj(9, inner()), obj(7, inner())], None, 5]),
+          ('oneof-family-different-values', ['1', [obj(6, 1), obj(7, 2), obj(9, 3)], None, 5])]
+  for dist in (True, False):
+    for srt in (True, False):
+      m = ('D' if dist else '') + ('S' if srt else '')
+      out.append(('manyof' + m + '-family', ['M', 2, [obj(6), obj(7), obj(9, inner())], dist, srt, None, 5]))
   for dist in (True, False):
     for srt in (True, False):
       m = ('D' if dist else '') + ('S' if srt else '')
@@ -543,7 +583,7 @@ def sweep_templates():
   for (pl, p), (cl, c), (wl, w) in itertools.product(sweep_placeholders(), sweep_contexts(), SWEEP_WHERES):
     if wl == 'all-but-enclosing' and not cl.startswith('below-filtered'): continue
     if cl.startswith('below-filtered') and wl in ('no-filter', 'accept-all'): continue    # then the enclosing choice is simply accepted: same as candidate-of-*
-    if wl == 'nested-only' and not ('cond' in pl or 'float' in pl): continue
+    if wl == 'nested-only' and not ('cond' in pl or 'float' in pl or 'nested' in pl or 'family' in pl): continue
     out.append(('%s/%s/%s' % (pl, cl, wl), json.loads(json.dumps(c(p))), w))
   return out
 
@@ -685,8 +725,13 @@ def perturbations(rng, vd, limit):
         out.append(('list-reversed', put(vd, p, ['l', node[1][::-1]])))
         out.append(('list-dup-first', put(vd, p, ['l', [node[1][0]] * len(node[1])])))
     elif k == 'O':
-      other = (node[1] + 1) % N_UNTYPED
+      other = (node[1] + 1) % 4
       out.append(('object->other-class', put(vd, p, ['O', other, [[f, ['L', 0]] for f in CLASSES[other][1]]])))
+      if node[1] in FAMILY:       # the same fields under a base / derived / sibling class: == says different, encode must too
+        have = dict((k, x) for k, x in node[2])
+        for rel in FAMILY:
+          if rel != node[1]:
+            out.append(('object->related-class', put(vd, p, ['O', rel, [[f, have.get(f, ['L', 0])] for f in CLASSES[rel][1]]])))
       out.append(('object->dict', put(vd, p, ['D', node[2]])))
     else:
       out.append(('hyper->leaf', put(vd, p, ['L', 0])))
@@ -709,6 +754,9 @@ def process_template(job):
   kk = kinds_key(w, t)
   nontriv = has_conditional(w, t) or any(h[0] == 'M' and h[1] > 1 and weval(w, h) for h in left_hypers(t)) or any(not weval(w, h) for h in left_hypers(t))
   origin = label.split(':')[0]
+  import time
+  if time.time() > P['deadline']:      # wall-clock guard of the tier: the template is reported as skipped, never silently
+    rec.hist('skipped_for_time_budget', 'template:' + origin); return rec
   rec.hist('template_origin', origin); rec.hist('template_placeholder_kinds', kk); rec.hist('template_feature', feat)
   rec.hist('where_kind', w[0] if w[0] != 'not' else 'not-' + w[1][0])
   if label.endswith('?'):           # typed template that is non-conforming on purpose: the library may refuse to bind the placeholder
@@ -765,6 +813,8 @@ def process_template(job):
   cwork = set(rng.sample(range(len(sds)), min(P['ncwork'], len(sds))))
   pwork = set(rng.sample(range(len(sds)), min(P['npwork'], len(sds))))
   for di, sd in enumerate(sds):
+    if di >= 4 and time.time() > P['deadline']:
+      rec.hist('skipped_for_time_budget', 'dnas-of-a-started-template:' + origin, len(sds) - di); exhaustive = False; break
     dna = G.build_dna(sd)
     sdtr = G.sdna_tr(sd)
     dcase = dict(case0, op='decode/encode', sdna=sd)
@@ -774,7 +824,7 @@ def process_template(job):
     rec.oracle += 1
     vd = None
     if not ok1:
-      cause = 'bound-value-spec-rejects-decoded-value' if has_node(t, lambda n: n[0] == 'O' and n[1] >= 4) and not isinstance(v, (KeyError, IndexError)) and 'DNA' not in str(v)[:40] else feat
+      cause = 'bound-value-spec-rejects-decoded-value' if has_node(t, lambda n: n[0] == 'O' and n[1] in TYPED) and not isinstance(v, (KeyError, IndexError)) and 'DNA' not in str(v)[:40] else feat
       rec.hit('C13/decode-raises/%s/%s' % (type(v).__name__, cause), 'decode of the valid DNA %s raises %s: %s; template %s (%s)' % (dna, type(v).__name__, str(v)[:200], td, wd), dcase)
     elif r1 == [1, 8]:
       rec.hit('C13/decode-shape/unrepresentable/%s' % feat, 'decode of %s returns a value outside the template language: %r; template %s (%s)' % (dna, v, td, wd), dcase)
@@ -970,15 +1020,21 @@ def run(ctx):
   q = detect_quirks()
   qtr = [int(q['list_dict'])]
   ctx.extra['quirk_flags_from_witness_replay'] = q
+  import time
   P = dict(limit=ctx.scale(200, 200), nrand=ctx.scale(50, 50), ncwork=ctx.scale(1, 3), ncorr=ctx.scale(6, 20), npwork=ctx.scale(1, 3), npert=ctx.scale(6, 20))
-  ctx.extra['per_template_parameters'] = P
+  ctx.extra['per_template_parameters'] = dict(P)
+  budget = int(os.environ.get('C13_IMPL_BUDGET', ctx.scale(55, 1200)))
+  P['deadline'] = time.time() + budget
+  ctx.extra['implementation_wall_budget_s'] = budget
   sweep = sweep_templates()
   ctx.extra['sweep'] = dict(what='every placeholder kind (oneof, oneof with conditional candidates, manyof in all four distinct x sorted modes plain / conditional / with float+custom candidates, '
                                  'manyof k=1, permutation, floatv, two custom hypers) x every container context (root, dict, between siblings, list, nested lists, object field, object in dict in list, '
                                  'candidate of oneof, candidate of manyof, below a filtered-out oneof / manyof, twice) x filter relation (none, accept-all, only it, all but it, all but the enclosing one, nested only)',
                             templates=len(sweep))
-  if not ctx.thorough:
-    sweep = [sweep[i] for i in sorted(rng.sample(range(len(sweep)), ctx.scale(170, len(sweep))))]
+  if not ctx.thorough:      # stratified: every placeholder kind in PER_KIND random (context, filter) combinations
+    by_kind = {}
+    for item in sweep: by_kind.setdefault(item[0].split('/')[0], []).append(item)
+    sweep = [x for kind in sorted(by_kind) for x in rng.sample(by_kind[kind], min(6, len(by_kind[kind])))]
   ctx.extra['sweep']['run_in_this_tier'] = len(sweep)
   templates = [(l, t, w) for l, t, w in CORPUS] + [('sweep:' + l, t, w) for l, t, w in sweep]
   tsweep = typed_sweep()
@@ -1001,7 +1057,7 @@ def run(ctx):
   jobs = [(ti, l, t, w, rng.getrandbits(48), qtr, P) for ti, (l, t, w) in enumerate(templates)]
   nproc = int(os.environ.get('VERIF_JOBS', str(min(12, os.cpu_count() or 2))))
   recs = run_jobs(jobs, nproc)
-  ctx.log('implementation ran on %d templates (%d worker processes)' % (len(templates), nproc))
+  ctx.log('implementation ran on %d templates (%d worker processes)%s' % (len(templates), nproc, '; wall budget exhausted: the rest is reported under skipped_for_time_budget' if time.time() > P['deadline'] else ''))
   cases, impl, descr = [], [], []
   noracle = 0
   for rec in recs:
@@ -1022,7 +1078,8 @@ def replay(ctx, rp):
   c = rp['case']
   py()
   q = detect_quirks()
-  P = dict(limit=200, nrand=50, ncwork=0, ncorr=0, npwork=0, npert=0)
+  import time
+  P = dict(limit=200, nrand=50, ncwork=0, ncorr=0, npwork=0, npert=0, deadline=time.time() + 600)
   rec = process_template((0, 'replay', c['template'], c['where'], 1, [int(q['list_dict'])], P))
   hits = [ev for ev in rec.events if ev[0] == 'hit']
   known = {f['signature'] for f in ctx.open_findings()} if rp.get('ignore_known') else set()
